@@ -229,7 +229,7 @@ ComG(i, X) == VAdd(X[i].p, ComOff(i, X))
 IcG(i, X) == MM(MM(X[i].R, Diag(desc[i].ic[1], desc[i].ic[2], desc[i].ic[3])), MT(X[i].R))
 \* per-body velocity data: angular velocity and mass-centre velocity/acceleration
 BodyV(X, V) == TLCEval([b \in 1..N |-> LET c == ComOff(b, X) IN
-                  [w |-> V[b].w, vc |-> VAdd(V[b].v, Cross(V[b].w, c)), aw |-> V[b].aw,
+                  [w |-> V[b].w, v |-> V[b].v, vc |-> VAdd(V[b].v, Cross(V[b].w, c)), aw |-> V[b].aw,
                    ac |-> VAdd(V[b].a, VAdd(Cross(V[b].aw, c), Cross(V[b].w, Cross(V[b].w, c))))]])
 RECURSIVE SumRS(_, _)
 SumRS(s, n) == IF n = 0 THEN Zero ELSE RAdd(SumRS(s, n - 1), s[n])
@@ -242,8 +242,25 @@ Mass(b) == R(desc[b].mass)
 \* bilinear form of the bodies' inertias: sum_b m vc1.vc2 + w1 . Ic w2
 Bilin(X, B1, B2) == SumRS(TLCEval([b \in 1..N |-> RAdd(RMul(Mass(b), Dot(B1[b].vc, B2[b].vc)), Dot(B1[b].w, MV(IcG(b, X), B2[b].w)))]), N)
 
-\* everything the harness compares, computed once per configuration
-Eval(dyn) ==
+\* spatial forces ("wrenches") [t, f]: torque about a stated point and force
+WZero == [t |-> VZero, f |-> VZero]
+WAdd(a, b) == [t |-> VAdd(a.t, b.t), f |-> VAdd(a.f, b.f)]
+WSub(a, b) == [t |-> VSub(a.t, b.t), f |-> VSub(a.f, b.f)]
+\* the same wrench about a point displaced by r from the current reference point: t' = t - r x f
+WShift(a, r) == [t |-> VSub(a.t, Cross(r, a.f)), f |-> a.f]
+RECURSIVE SumKids(_, _, _)
+SumKids(i, c, acc) == IF c > N THEN WZero
+                      ELSE IF desc[c].parent = i THEN WAdd(acc[c], SumKids(i, c + 1, acc)) ELSE SumKids(i, c + 1, acc)
+\* mobilizer reactions about the Ground origin, tip to base: R_b = Hdot_b - Applied_b + sum of the children's R
+RECURSIVE BuildR(_, _, _, _)
+BuildR(i, Hd, App, acc) == IF i = 0 THEN acc
+                           ELSE BuildR(i - 1, Hd, App, [acc EXCEPT ![i] = WAdd(WSub(Hd[i], App[i]), SumKids(i, i + 1, acc))])
+
+\* everything the harness compares, computed once per configuration.
+\* dyn: evaluate the dynamics quantities too; ud: integer speed derivatives per mobility (same shape as u);
+\* F: applied spatial force per body, in Ground, torque and force at the body origin (integers);
+\* q2, u2: a second set of coordinates and speeds per mobilizer -- the targets of the fitting operations
+Eval(dyn, ud, F, q2, u2) ==
   LET X == TLCEval(Poses)
       Vu == TLCEval(Vels(X, u, ZeroU))
       Bu == BodyV(X, Vu)
@@ -253,14 +270,36 @@ Eval(dyn) ==
       uf == TLCEval([j \in 1..ND |-> R(u[Dofs[j][1]][Dofs[j][2]])])
       uMu == SumRS(TLCEval([j \in 1..ND |-> SumRS(TLCEval([k \in 1..ND |-> RMul(RMul(uf[j], uf[k]), M[j][k])]), ND)]), ND)
       ke2 == Bilin(X, Bu, Bu)
-      \* Kane: generalized inertia force of the motion (u, udot = 0): f_j = sum_b vc_j . m ac + w_j . (Ic aw + w x Ic w)
-      Fstar == TLCEval([b \in 1..N |-> [f |-> VScale(Mass(b), Bu[b].ac),
-                                t |-> VAdd(MV(IcG(b, X), Bu[b].aw), Cross(Bu[b].w, MV(IcG(b, X), Bu[b].w)))]])
-      bias == TLCEval([j \in 1..ND |-> SumRS(TLCEval([b \in 1..N |-> RAdd(Dot(Cols[j][b].vc, Fstar[b].f), Dot(Cols[j][b].w, Fstar[b].t))]), N)])
+      \* Kane: generalized inertia force of a motion B: f_j = sum_b vc_j . m ac + w_j . (Ic aw + w x Ic w)
+      Fstar(B) == TLCEval([b \in 1..N |-> [f |-> VScale(Mass(b), B[b].ac),
+                                t |-> VAdd(MV(IcG(b, X), B[b].aw), Cross(B[b].w, MV(IcG(b, X), B[b].w)))]])
+      Kane(FS) == TLCEval([j \in 1..ND |-> SumRS(TLCEval([b \in 1..N |-> RAdd(Dot(Cols[j][b].vc, FS[b].f), Dot(Cols[j][b].w, FS[b].t))]), N)])
+      bias == Kane(Fstar(Bu))                      \* udot = 0
+      \* the motion with the given speed derivatives, the applied forces and what balances them
+      Va == TLCEval(Vels(X, u, ud))
+      Ba == BodyV(X, Va)
+      FSa == Fstar(Ba)
+      Fb == TLCEval([b \in 1..N |-> [t |-> VI(F[b].t[1], F[b].t[2], F[b].t[3]), f |-> VI(F[b].f[1], F[b].f[2], F[b].f[3])]])
+      JtF == TLCEval([j \in 1..ND |-> SumRS(TLCEval([b \in 1..N |-> RAdd(Dot(Cols[j][b].w, Fb[b].t), Dot(Cols[j][b].v, Fb[b].f))]), N)])
+      MudPlusBias == Kane(FSa)
+      tau == TLCEval([j \in 1..ND |-> RSub(MudPlusBias[j], JtF[j])])      \* mobility forces that produce udot = ud
+      \* rate of change of each body's momentum about the Ground origin, and the applied forces about it
+      Hd == TLCEval([b \in 1..N |-> [f |-> FSa[b].f, t |-> VAdd(FSa[b].t, Cross(ComG(b, X), FSa[b].f))]])
+      App == TLCEval([b \in 1..N |-> [f |-> Fb[b].f, t |-> VAdd(Fb[b].t, Cross(X[b].p, Fb[b].f))]])
+      RO == TLCEval(BuildR(N, Hd, App, [b \in 1..N |-> WZero]))
   IN [X |-> [b \in 1..N |-> [R |-> X[b].R, p |-> X[b].p]],
       V |-> [b \in 1..N |-> [w |-> Vu[b].w, v |-> Vu[b].v]],
       A0 |-> IF dyn THEN [b \in 1..N |-> [aw |-> Vu[b].aw, a |-> Vu[b].a]] ELSE <<>>,   \* accelerations when udot = 0 (Jdot u)
       M |-> M, ke2 |-> ke2, uMu |-> uMu, bias |-> IF dyn THEN bias ELSE <<>>,
+      A |-> IF dyn THEN [b \in 1..N |-> [aw |-> Va[b].aw, a |-> Va[b].a]] ELSE <<>>,
+      tau |-> IF dyn THEN tau ELSE <<>>,
+      JtF |-> IF dyn THEN JtF ELSE <<>>,
+      \* reaction of each mobilizer on its body at the M origin, and on the parent at the F origin (both in Ground)
+      reactM |-> IF dyn THEN [b \in 1..N |-> WShift(RO[b], X[b].pM)] ELSE <<>>,
+      reactF |-> IF dyn THEN [b \in 1..N |-> LET w == WShift(RO[b], X[b].pF) IN [t |-> VNeg(w.t), f |-> VNeg(w.f)]] ELSE <<>>,
+      \* pose and velocity of M in F (expressed in F) for the coordinates q2 and speeds u2: what a mobilizer fitted to
+      \* them must reproduce
+      fit |-> [b \in 1..N |-> LET D == Rel(desc[b].type, desc[b].rev, q2[b], u2[b], ZeroU[b]) IN [R |-> D.R, p |-> D.p, w |-> D.w, v |-> D.v]],
       P |-> SumVS(TLCEval([b \in 1..N |-> VScale(Mass(b), Bu[b].vc)]), N),
       L |-> SumVS(TLCEval([b \in 1..N |-> VAdd(MV(IcG(b, X), Bu[b].w), VScale(Mass(b), Cross(ComG(b, X), Bu[b].vc)))]), N),
       mcom |-> SumVS(TLCEval([b \in 1..N |-> VScale(Mass(b), ComG(b, X))]), N),
@@ -270,5 +309,12 @@ Eval(dyn) ==
       sym |-> \A j \in 1..ND, k \in 1..ND : M[j][k] = M[k][j],
       keIsUMU |-> uMu = ke2,
       diagPos |-> \A j \in 1..ND : M[j][j].n > 0,
-      proper |-> \A b \in 1..N : MM(X[b].R, MT(X[b].R)) = Ident]
+      proper |-> \A b \in 1..N : MM(X[b].R, MT(X[b].R)) = Ident,
+      \* Kane's equations are linear in udot: (M ud + bias) computed from the motion = M*ud + bias computed separately
+      kaneLinear |-> (~dyn) \/ \A j \in 1..ND :
+                       MudPlusBias[j] = RAdd(bias[j], SumRS(TLCEval([k \in 1..ND |-> RMul(M[j][k], R(ud[Dofs[k][1]][Dofs[k][2]]))]), ND)),
+      \* the reactions at the base mobilizers balance the whole system: sum over root bodies of R = total Hdot - total applied
+      rootBalance |-> (~dyn) \/ LET roots == TLCEval([b \in 1..N |-> IF desc[b].parent = 0 THEN RO[b] ELSE WZero])
+                                    tot(S) == [t |-> SumVS(TLCEval([b \in 1..N |-> S[b].t]), N), f |-> SumVS(TLCEval([b \in 1..N |-> S[b].f]), N)]
+                                IN tot(roots) = WSub(tot(Hd), tot(App))]
 =============================================================================
